@@ -50,8 +50,13 @@ def gen_plan(rng, opts=None):
             else:
                 qs.append(["result", rng.randrange(njobs), "nope", 0, rng.choice([0, 5])])
         fes.append(qs)
+    if o.get("short_timeouts"):
+        # impatient frontends: some requests are abandoned before the (slow) gateway answers
+        for qs in fes:
+            for q in qs:
+                q.insert(-1, rng.choice([5000, 5000, 1, 3, 10]))
     lat_hi = rng.choice([50_000, 2_000_000, 40_000_000, 200_000_000]) if o["reorder"] else 50_000
-    return dict(jobs=jobs, fes=fes, lat_hi=lat_hi, dup=rng.choice([0, 0, 20, 50]) if o["dup"] else 0, uuid_collide=rng.random() < 0.3,
+    return dict(jobs=jobs, fes=fes, lat_hi=lat_hi, timeouts=bool(o.get("short_timeouts")), dup=rng.choice([0, 0, 20, 50]) if o["dup"] else 0, uuid_collide=rng.random() < 0.3,
                 submit_by=[rng.randrange(nfe) for _ in range(njobs)])
 
 
@@ -147,33 +152,56 @@ def run(plan, ch, want_log=False):
                 K.sleep(rep[-1] * 1_000_000)
         controllers_done.append(ji)
 
-    def rr(m):
-        return gclient.request_response(m, URL, timeout_ms=5000)
+    uploads = collections.defaultdict(set)     # (job index, dataset repr) -> every byte string that job ever uploads for it
+    for ji, job in enumerate(plan["jobs"]):
+        for rep in job["reports"]:
+            if rep[0] == "result":
+                uploads[(ji, f"{rep[1]}.{rep[2]}")].add(bytes((rep[3] + i + ji) & 0xFF for i in range(rep[3])))
+
+    def rr(m, timeout_ms=5000):
+        """Client-side oracle: whatever request_response hands back must be the answer to THIS request."""
+        try:
+            resp = gclient.request_response(m, URL, timeout_ms=timeout_ms)
+        except ValueError as e:
+            if "TimeoutError" in str(e) or "Timeout" in str(e):
+                K.probe("client_timeout")
+                return None
+            raise
+        if isinstance(m, api.JobProgressRequest) and m.job_ids and not resp.error:
+            if set(resp.progresses) != set(m.job_ids):
+                viol.append(("C18", "progress_answer_for_other_jobs", (sorted(m.job_ids), sorted(resp.progresses))))
+        elif isinstance(m, api.ResultRetrievalRequest) and resp.result is not None:
+            ji = next((j for j, jid in submitted.items() if jid == m.job_id), None)
+            got = base64.b64decode(resp.result)
+            if got not in uploads.get((ji, repr(m.dataset_id)), set()):
+                viol.append(("C18", "result_answer_for_other_request", (m.job_id, repr(m.dataset_id), len(got))))
+        return resp
 
     def frontend(fi):
         for ji, by in enumerate(plan["submit_by"]):
             if by == fi:
-                resp = rr(api.SubmitJobRequest(job=api.JobSpec(benchmark_name="b", envvars={}, job_instance=None, workers_per_host=1, hosts=1, use_slurm=False)))
-                if resp.error or not resp.job_id:
-                    viol.append(("C18", "submit_failed", resp.error))
+                resp = rr(api.SubmitJobRequest(job=api.JobSpec(benchmark_name="b", envvars={}, job_instance=None, workers_per_host=1, hosts=1, use_slurm=False)), 60000)
+                if resp is None or resp.error or not resp.job_id:
+                    viol.append(("C18", "submit_failed", getattr(resp, "error", "timeout")))
                     submitted[ji] = None
                 else:
                     if resp.job_id in [v for v in submitted.values()]:
                         viol.append(("C18", "job_id_reused", resp.job_id))
                     submitted[ji] = resp.job_id
         for q in plan["fes"][fi]:
+            to = q[-2] if plan.get("timeouts") else 5000
             try:
                 if q[0] == "progress":
                     K.block(lambda: all(j in submitted for j in q[1]), None, "wait_ids")
-                    rr(api.JobProgressRequest(job_ids=[submitted[j] for j in q[1] if submitted[j]]))
+                    rr(api.JobProgressRequest(job_ids=[submitted[j] for j in q[1] if submitted[j]]), to)
                 elif q[0] == "progress_unknown":
-                    rr(api.JobProgressRequest(job_ids=["no-such-job"]))
+                    rr(api.JobProgressRequest(job_ids=["no-such-job"]), to)
                 elif q[0] == "result":
                     K.block(lambda: q[1] in submitted, None, "wait_ids")
                     if submitted[q[1]]:
-                        rr(api.ResultRetrievalRequest(job_id=submitted[q[1]], dataset_id=DatasetId(q[2], str(q[3]))))
+                        rr(api.ResultRetrievalRequest(job_id=submitted[q[1]], dataset_id=DatasetId(q[2], str(q[3]))), to)
                 elif q[0] == "result_unknown_job":
-                    rr(api.ResultRetrievalRequest(job_id="no-such-job", dataset_id=DatasetId("t0", "0")))
+                    rr(api.ResultRetrievalRequest(job_id="no-such-job", dataset_id=DatasetId("t0", "0")), to)
             except ValueError as e:
                 viol.append(("C18", "request_failed", (q, str(e)[:100])))
             if q[-1]:
